@@ -52,7 +52,8 @@ func build(expr logql.Expr, sel SampleSelector, params EvalParams) (_ StepIterat
 		}
 		defer closeOnError(iter)
 
-		return RangeAggregation(iter, expr, start, end, params.Step)
+		// Steps are evaluated (and stamped) at the query grid, offset only shifts the window.
+		return RangeAggregation(iter, expr, params.Start, params.End, params.Step)
 	case *logql.VectorAggregationExpr:
 		iter, err := build(expr.Expr, sel, params)
 		if err != nil {
